@@ -78,6 +78,16 @@ def on_disagreement(c, binary, ln, il, ml, d):
 
 def main(tier):
     c = rb.run("C02", tier, on_disagreement, rb.WHITE, walk_all=True)
+    # pointer-level model (literal transcription of the Go code incl. parent pointers; props/C02_ptr.v proves it
+    # equal to the recursive model and proves parent-link consistency): compared with the implementation as well
+    try:
+        import part_rbptr
+        binary, log = c.build_harness(pkgs=["c01"])
+        if binary is not None:
+            part_rbptr.run(c, binary, tier)
+    except Exception:
+        import traceback
+        c.report("C02:rbptr:crash", "check part rbptr crashed", {"kind": "internal", "trace": traceback.format_exc()[-3000:]}, found_input=False)
     c.finish(
         level="proof",
         rule="same histories as C01 (container x comparator x insertion order x deletion order from VERIF_SEED, ~60% valid ops + duplicates + "
@@ -87,8 +97,9 @@ def main(tier):
              "implementation's own dumps (all histories in quick, a 1/25 sample + all bounded-exhaustive ones in thorough). "
              "non-trivial = at least 3 successful insertions/deletions; distinct by md5 of the case text",
         assumptions=["the user's comparator is a strict weak order (Section hypotheses of the theorems)",
-                     "parent-link consistency is not a theorem (the model has no parent pointers): it is checked on the implementation "
-                     "after every observed op by the hook's flag",
+                     "parent-link consistency is a theorem about the pointer-level model RBPtrModel.v (props/C02_ptr.v: parent_links_consistent; "
+                     "ptr_refines_rec proves that model equal to the recursive one for every history); on the implementation it is "
+                     "additionally checked after every observed op by the hook's flag",
                      "the hand-written model RBModel.v is the object of the balance theorems; it is tied to internal/tree by the exact "
                      "shape comparison of this check"],
         trusted_base=rb.TRUSTED)
